@@ -312,6 +312,20 @@ func (m *Model) UpdateMode(mode *traits.ElectricMode, opts ...resource.WriteOpti
 }
 
 func (m *Model) updateMode(mode *traits.ElectricMode, opts ...resource.WriteOption) (*traits.ElectricMode, error) {
+	// if this update makes the mode normal, check that there isn't another normal mode
+	if mode.Normal {
+		mask := resource.ComputeWriteConfig(opts...).UpdateMask
+		writesNormal := mask == nil
+		for _, p := range mask.GetPaths() {
+			if p == "normal" {
+				writesNormal = true
+			}
+		}
+		if normal, ok := m.normalMode(); writesNormal && ok && normal.Id != mode.Id {
+			return nil, ErrNormalModeExists
+		}
+	}
+
 	msg, err := m.modes.Update(mode.Id, mode, opts...)
 	if err != nil {
 		return nil, err
